@@ -29,6 +29,21 @@ def strategy(draw, kinds, max_steps=8):
         c["steps"] = draw(st.integers(2, 3))
         c["removal"] = draw(gen.uniform(0.3, 0.97))
         c["coarse"] = True
+    roll = draw(st.integers(0, 19))
+    if c["kind"].endswith("noniso") and roll < 2:
+        # a temperature programme that runs below 0 K within the requested steps (must raise, whatever state it lands on)
+        c["program"] = {"type": "polynomial", "t_end": draw(gen.uniform(-400.0, -25.0)), "deg": draw(st.integers(1, 2)),
+                        "w": draw(gen.uniform(-0.4, 0.4)), "c1": 0.0, "c0": 80.0, "offset": 0.0, "w3": 0.0}
+        c["steps"] = draw(st.integers(2, 4))
+    elif roll == 2:
+        # degenerate but admissible corner: a pure feed and a membrane that does not pass the component present
+        # (total flux exactly zero: the permeate composition is undefined, the call must raise rather than report NaN)
+        pure_first = draw(st.booleans())
+        c["x"] = 1.0 if pure_first else 0.0
+        key = "e1" if pure_first else "e2"
+        c["membrane"] = dict(c["membrane"], **{key: [dict(e, value=0.0) for e in c["membrane"][key]]})
+        c["perm"] = {"mode": "vacuum", "T": None, "p": None}
+        c["degenerate"] = True
     return c
 
 
@@ -66,7 +81,12 @@ def check(case):
     classes = procs.classes_of(case) + ["coarse" if case.get("coarse") else "fine"]
     try:
         with Trace(s.pv, cap=60000, keep=False):
-            dt = procs.step_length(case, s)
+            try:
+                dt = procs.step_length(case, s)
+            except Discard:
+                if not case.get("degenerate"):
+                    raise
+                dt = 1.0  # zero total flux: no flux scale exists, any step length will do
             model = procs.run(case, s, dt)
     except EvaluationCap:
         raise Discard("evaluation cap reached (termination is C10's subject)")
